@@ -1,5 +1,5 @@
 //! C14: `BufferedBody::_extract_with_limit` (through the cfg-gated hook) on arbitrary frame lists.
-use crate::Json;
+use pxh::Json;
 use bytes::Bytes;
 use http_body::{Body, Frame};
 use pavex::request::RequestHead;
